@@ -45,7 +45,7 @@ func (st *State) tryNative(g *Goroutine, fr *Frame, fn *ssa.Function, args []Val
 	if st.job != nil {
 		st.job.funcs[key]++
 	}
-	if r, ok := st.eng.redirects[key]; ok {
+	if r, ok := st.eng.redirects[key]; ok && (st.job == nil || st.job.Params["noredirect"] == "" || !strings.Contains(key, st.job.Params["noredirect"])) {
 		target := st.eng.lookupFunc(r)
 		if target == nil {
 			st.unsupported("redirect target %s not found", r)
@@ -56,7 +56,9 @@ func (st *State) tryNative(g *Goroutine, fr *Frame, fn *ssa.Function, args []Val
 	}
 	if nf, ok := natives[key]; ok {
 		v, s := nf(st, g, fr, fn, args)
-		return v, s, true
+		if s != stFallback {
+			return v, s, true
+		}
 	}
 	if fn.Pkg != nil {
 		path := fn.Pkg.Pkg.Path()
@@ -448,6 +450,42 @@ func init() {
 		}
 		return uint64(n), stNext
 	})
+	boolFold := func(isAnd bool) nativeFn {
+		return func(st *State, g *Goroutine, fr *Frame, fn *ssa.Function, args []Value) (Value, status) {
+			s := args[0].(Slice)
+			var res Value = isAnd
+			if s.obj == nil {
+				return res, stNext
+			}
+			n := int(st.concrete(s.len))
+			for i := 0; i < n; i++ {
+				v := s.obj.slots[s.off+i]
+				if isAnd {
+					res = st.andV(res, v)
+				} else {
+					res = st.notV(st.andV(st.notV(res), st.notV(v)))
+				}
+			}
+			return res, stNext
+		}
+	}
+	V("All", boolFold(true))
+	V("Any", boolFold(false))
+	V("Implies", func(st *State, g *Goroutine, fr *Frame, fn *ssa.Function, args []Value) (Value, status) {
+		return st.notV(st.andV(args[0], st.notV(args[1]))), stNext
+	})
+	V("BytesEq", func(st *State, g *Goroutine, fr *Frame, fn *ssa.Function, args []Value) (Value, status) {
+		a, b := args[0].(Slice), args[1].(Slice)
+		na, nb := st.concrete(a.len), st.concrete(b.len)
+		if na != nb {
+			return false, stNext
+		}
+		var res Value = true
+		for i := 0; i < int(na); i++ {
+			res = st.andV(res, st.equal(types.Typ[types.Uint8], a.obj.slots[a.off+i], b.obj.slots[b.off+i]))
+		}
+		return res, stNext
+	})
 	V("Symbolic", func(st *State, g *Goroutine, fr *Frame, fn *ssa.Function, args []Value) (Value, status) {
 		return true, stNext
 	})
@@ -759,6 +797,21 @@ func init() {
 		}
 		st.pushFrame(g, cl.fn, nil, cl.env, fr.fi.idx[fr.block.Instrs[fr.ip].(ssa.Value)])
 		return nil, stJumped
+	})
+	// ---- netip: branch-free comparison of zone-less addresses ----
+	N("(net/netip.Addr).Compare", func(st *State, g *Goroutine, fr *Frame, fn *ssa.Function, args []Value) (Value, status) {
+		a, b := args[0].(Agg), args[1].(Agg)
+		za, ok1 := a[2].(Pointer)
+		zb, ok2 := b[2].(Pointer)
+		if !ok1 || !ok2 || za != zb {
+			return nil, stFallback
+		}
+		p := st.tp
+		h1, h2 := st.intTerm(a[0], 64), st.intTerm(b[0], 64)
+		l1, l2 := st.intTerm(a[1], 64), st.intTerm(b[1], 64)
+		lt := p.Or(p.Ult(h1, h2), p.And(p.Eq(h1, h2), p.Ult(l1, l2)))
+		eq := p.And(p.Eq(h1, h2), p.Eq(l1, l2))
+		return norm(p.Ite(lt, p.BVConst(64, ^uint64(0)), p.Ite(eq, p.BVConst(64, 0), p.BVConst(64, 1)))), stNext
 	})
 	// ---- unique ----
 	N("unique.Make", func(st *State, g *Goroutine, fr *Frame, fn *ssa.Function, args []Value) (Value, status) {
@@ -1131,6 +1184,9 @@ func (st *State) assume(c Value) status {
 		} else if st.evalModel(x) == 1 {
 			feas = true
 		} else {
+			for k := range st.altModels {
+				delete(st.altModels, k)
+			}
 			feas = st.query(x)
 			if feas {
 				if m, ok := st.altModels[x.id]; ok {
@@ -1185,8 +1241,7 @@ func (st *State) assert(c Value, label, kf string, inRegion Value) status {
 		if kf != "" && st.job.kfOpen[kf] {
 			reg := st.boolTerm(inRegion)
 			// outside the known region the assertion must hold
-			r, m := st.solver.CheckWith(st.tp.And(neg, st.tp.Not(reg)), st.vars)
-			st.job.noteQuery(r)
+			r, m := st.solve([]*Term{st.tp.And(neg, st.tp.Not(reg))}, true)
 			switch r {
 			case Sat:
 				as.Failed++
@@ -1198,8 +1253,7 @@ func (st *State) assert(c Value, label, kf string, inRegion Value) status {
 				as.Unknown++
 				st.job.inconclusive = append(st.job.inconclusive, "unknown on assertion "+label)
 			}
-			r2, _ := st.solver.CheckWith(st.tp.And(neg, reg), nil)
-			st.job.noteQuery(r2)
+			r2, _ := st.solve([]*Term{st.tp.And(neg, reg)}, false)
 			if r2 == Sat {
 				st.job.knownHits[kf]++
 			} else if r == Unsat {
@@ -1207,8 +1261,7 @@ func (st *State) assert(c Value, label, kf string, inRegion Value) status {
 			}
 			return st.assume(x)
 		}
-		r, m := st.solver.CheckWith(neg, st.vars)
-		st.job.noteQuery(r)
+		r, m := st.solve([]*Term{neg}, true)
 		switch r {
 		case Unsat:
 			as.Proved++
@@ -1239,13 +1292,7 @@ func (st *State) reach(label string) {
 	}
 	m := st.model
 	if m == nil {
-		st.solver.Push()
-		r := st.solver.Check()
-		st.job.noteQuery(r)
-		if r == Sat {
-			m = st.solver.GetModel(st.vars)
-		}
-		st.solver.Pop()
+		_, m = st.solve(nil, true)
 		if m == nil {
 			return
 		}
